@@ -44,6 +44,7 @@ def _jax():
             def allints(A, Bm, s, nf=nf):
                 return np.array([M.integrate_with_mortar(A, Bm, nf, f, s) for f in integrands.values()])
             _J['mortar_' + nk] = jax.jit(allints)
+            _J['inter_' + nk] = jax.jit(lambda A, Bm, nf=nf: M.compute_intersection(A, Bm, nf))
         _J['integrand_names'] = list(integrands)
     return _J
 
@@ -220,6 +221,31 @@ def check_mortar(case):
         if cls in ('none', 'tilted_none'):
             if onp.any(v1 != 0.0) or onp.any(v2 != 0.0):
                 fails.append(Failure('no-overlap-zero', 'segments do not overlap but the integrals are %r (%s normal)' % (v1.tolist(), nk), **data))
+        # the overlap in the frame of the common normal, computed independently: both segments are projected along n onto the
+        # tangent line; the ends of the common interval, their parametric coordinates on A and B and the gap n.(xB - xA) there
+        tA = A[1] - A[0]
+        tB = Bm[1] - Bm[0]
+        nA = onp.array([tA[1], -tA[0]]) / onp.linalg.norm(tA)
+        nB = onp.array([tB[1], -tB[0]]) / onp.linalg.norm(tB)
+        n = nA if nk == 'from_a' else (nA - nB) / onp.linalg.norm(nA - nB)
+        tv = onp.array([-n[1], n[0]])
+        a0, a1, b0, b1 = A[0] @ tv, A[1] @ tv, Bm[0] @ tv, Bm[1] @ tv
+        lo_, hi_ = max(min(a0, a1), min(b0, b1)), min(max(a0, a1), max(b0, b1))
+        if hi_ - lo_ > 1e-6 * (LA + LB) and abs(a1 - a0) > 1e-6 * LA and abs(b1 - b0) > 1e-6 * LB:
+            ref = []
+            for tau in (lo_, hi_):
+                xa_, xb_ = (tau - a0) / (a1 - a0), (tau - b0) / (b1 - b0)
+                pa, pb = A[0] + xa_ * tA, Bm[0] + xb_ * tB
+                ref.append((xa_, xb_, float(n @ (pb - pa))))
+            ref.sort()
+            xiA_l, xiB_l, g_l = [onp.asarray(o) for o in J['inter_' + nk](np.array(A), np.array(Bm))]
+            for j in range(2):
+                gtol = 1e-9 * (LA + LB + abs(ref[j][2]))
+                if not (abs(xiA_l[j] - ref[j][0]) <= 1e-9 and abs(xiB_l[j] - ref[j][1]) <= 1e-9 and abs(g_l[j] - ref[j][2]) <= gtol):
+                    fails.append(Failure('intersection', 'compute_intersection (%s normal, %s): end %d is (xiA, xiB, g) = (%.12g, %.12g, %.12g), '
+                                         'projection along the common normal gives (%.12g, %.12g, %.12g)'
+                                         % (nk, cls, j, xiA_l[j], xiB_l[j], g_l[j], ref[j][0], ref[j][1], ref[j][2]), **data))
+                    break
         for k in (0, 2, 3, 4, 5):
             if v1[k] < -1e-13 * scale[k] - rnd[k]:
                 fails.append(Failure('non-negative', 'integral of the non-negative integrand %s is %r (%s, %s normal)'
